@@ -116,20 +116,28 @@ type retained struct {
 }
 
 type storeSim struct {
-	w          *world
-	p          *plan
-	disk       *simDisk
-	db         *pebble.DB
-	st         storage.ContentStorage
-	cs         *spebble.ContentStorage
-	nodeID     enode.ID
-	ids        [][32]byte
-	model      map[[32]byte][]byte   // what a get must return now
-	ever       map[[32]byte][][]byte // every value ever put under the id
-	maxItem    int                   // largest key+value accepted so far
-	held       []retained
-	lastRadius *uint256.Int
-	opIdx      int
+	// C04 "a refused put changes nothing observable", seen through the usage figure: the figure the store keeps
+	// after the last accepted put (or open), the refused puts since, and whether this run has shown that an
+	// accepted put without pruning adds exactly its own size (calibration; never judged otherwise)
+	usageAtAccept           uint64
+	refusedSince            int
+	refusedBytes            int
+	linearSeen, linearBroke int
+	usageKnown              bool
+	w                       *world
+	p                       *plan
+	disk                    *simDisk
+	db                      *pebble.DB
+	st                      storage.ContentStorage
+	cs                      *spebble.ContentStorage
+	nodeID                  enode.ID
+	ids                     [][32]byte
+	model                   map[[32]byte][]byte   // what a get must return now
+	ever                    map[[32]byte][][]byte // every value ever put under the id
+	maxItem                 int                   // largest key+value accepted so far
+	held                    []retained
+	lastRadius              *uint256.Int
+	opIdx                   int
 	// yield scheduler
 	tasks           map[uint64]*ytask
 	crashMode       string
@@ -335,6 +343,8 @@ func (s *storeSim) open(first bool) bool {
 	}
 	s.db, s.st = db, st
 	s.cs = st.(*spebble.ContentStorage)
+	s.usageAtAccept, s.usageKnown = s.cs.VerifSize(), true
+	s.refusedSince, s.refusedBytes = 0, 0
 	s.locks = findLocks(s.cs)
 	s.lastRadius = nil
 	return true
@@ -538,8 +548,28 @@ func (s *storeSim) doPut(op opSpec) {
 		if 32+len(val) > s.maxItem {
 			s.maxItem = 32 + len(val)
 		}
+		if mem := s.cs.VerifSize(); true {
+			// an accepted put that does not take the figure over the capacity adds exactly its own size
+			// to it; refused puts in between must not show in it
+			if exp := s.usageAtAccept + uint64(32+len(val)); exp <= storeCap && s.usageKnown {
+				switch {
+				case mem == exp && s.refusedSince == 0:
+					s.linearSeen++
+				case mem != exp && s.refusedSince == 0:
+					s.linearBroke++
+				case mem != exp && s.linearSeen > 0 && s.linearBroke == 0:
+					w.violate("C04", "refused-put-changed", "put#%d: the usage figure went from %d to %d for an accepted put of %d bytes; %d refused puts (%d bytes) lie in between and were not without effect", s.opIdx, s.usageAtAccept, mem, 32+len(val), s.refusedSince, s.refusedBytes)
+				case mem == exp:
+					w.probe("refused_puts_left_no_trace")
+				}
+			}
+			s.usageAtAccept, s.usageKnown = mem, true
+			s.refusedSince, s.refusedBytes = 0, 0
+		}
 	case errors.Is(err, storage.ErrInsufficientRadius):
 		w.probe("put_refused")
+		s.refusedSince++
+		s.refusedBytes += 32 + len(val)
 		// C06: refused only when distance is not below the radius
 		d := distBytes(id, s.nodeID)
 		dist := new(uint256.Int).SetBytes(d[:])
@@ -866,6 +896,7 @@ func (s *storeSim) doPar(batch []opSpec) {
 		})
 	}
 	trace, stuck := s.runTasks(sched, fns)
+	s.usageKnown = false // concurrent puts: the sequential usage bookkeeping of doPut starts afresh
 	if stuck {
 		w.violate("C05", "stuck", "concurrent puts did not finish")
 	}
